@@ -352,9 +352,20 @@ def _generic_builder(ck, fn: ast.FunctionDef) -> None:
     zeros = ('setitem', ('call', ('attr', ('var', leaves_name), 'copy'), (), ()), ileaf, unit)
     in_pytree = ('call', ('attr', ('attr', ('var', 'jax'), 'tree'), 'unflatten'), (('var', treedef_name), zeros), ())
     out_pytree = ('apply', S, in_pytree)
-    ok_shape = rt[0] == 'tuple' and len(rt) == 3
-    col = rt[1] if ok_shape else None
-    cnt = rt[2] if ok_shape else None
+    # two equivalent ways to number the columns: (A) a counter carried through the element loop next to the matrix and
+    # advanced by one per element; (B) the matrix alone is carried and the column is <columns of the previous leaves> + index,
+    # the offset being a Python integer advanced by leaf.size after each leaf
+    scheme_b = None
+    if not (rt[0] == 'tuple' and len(rt) == 3):
+        scheme_b = _offset_scheme(fn, loop, fori, leaf, index)
+    if scheme_b is not None:
+        m0, j0 = carry, scheme_b
+        col, cnt = rt, ('binop', '+', j0, ('const', '1'))
+        ok_shape = True
+    else:
+        ok_shape = rt[0] == 'tuple' and len(rt) == 3
+        col = rt[1] if ok_shape else None
+        cnt = rt[2] if ok_shape else None
     # column write: M.at[:, j].set(concatenate([l.ravel() for l in tree.leaves(out)]))
     good_unit = good_col = good_rows = good_write = False
     if col is not None and col[0] == 'call' and col[1][0] == 'attr' and col[1][2] == 'set' and col[1][1] == ('sub', ('attr', m0, 'at'), ('tuple', ('slice', ('none',), ('none',), ('none',)), j0)) and len(col[2]) == 1:
@@ -378,8 +389,31 @@ def _generic_builder(ck, fn: ast.FunctionDef) -> None:
     ck.expect('L3', good_write and cnt == ('binop', '+', j0, ('const', '1')), body_fn, 'column j is written once and j advances by one per input element',
               f'column write / counter update is {show(col)[:80]} / {show(cnt)}', instance='column write')
     init_carry = fa[3] if len(fa) == 4 else None
-    ck.expect('L3', init_carry is not None and init_carry[0] == 'tuple' and len(init_carry) == 3 and init_carry[1] == ('var', matrix_name), fn, 'the carry is (matrix, column counter)',
-              f'the carry is {show(init_carry)}', instance='carry', nontrivial=False)
+    if scheme_b is not None:
+        ck.expect('L3', init_carry == ('var', matrix_name), fn, 'the carry is the matrix; the column index is the running leaf offset plus the element index',
+                  f'the carry is {show(init_carry)}', instance='carry', nontrivial=False)
+    else:
+        ck.expect('L3', init_carry is not None and init_carry[0] == 'tuple' and len(init_carry) == 3 and init_carry[1] == ('var', matrix_name), fn, 'the carry is (matrix, column counter)',
+                  f'the carry is {show(init_carry)}', instance='carry', nontrivial=False)
+
+
+def _offset_scheme(fn: ast.FunctionDef, loop: ast.For, fori: ast.AST, leaf, index):
+    """The column term `offset + index` if `offset` is initialised to 0 before the leaf loop, advanced by leaf.size once
+    per leaf after the element loop, and written nowhere else; else None."""
+    cands = []
+    for st in fn.body[: fn.body.index(loop)]:
+        if isinstance(st, ast.Assign) and len(st.targets) == 1 and isinstance(st.targets[0], ast.Name) and term(st.value) == ('const', '0'):
+            cands.append(st.targets[0].id)
+    for name in cands:
+        stores = [n for n in ast.walk(fn) if isinstance(n, ast.Name) and n.id == name and isinstance(n.ctx, ast.Store)]
+        after = loop.body[loop.body.index(fori) + 1:] if fori in loop.body else []
+        bumps = [st for st in after if isinstance(st, ast.AugAssign) and isinstance(st.target, ast.Name) and st.target.id == name and isinstance(st.op, ast.Add)
+                 and term(st.value) == ('attr', leaf, 'size')]
+        bumps += [st for st in after if isinstance(st, ast.Assign) and isinstance(st.targets[0], ast.Name) and st.targets[0].id == name
+                  and term(st.value) in (('binop', '+', ('var', name), ('attr', leaf, 'size')), ('binop', '+', ('attr', leaf, 'size'), ('var', name)))]
+        if len(bumps) == 1 and len(stores) == 2:
+            return ('binop', '+', ('var', name), index)
+    return None
 
 
 def controls(world: World) -> list[Control]:
